@@ -255,6 +255,8 @@ pub struct Parser<R> {
     nospace_bits: u64,    // SIMD marked nospace bitmap
     nospace_start: isize, // the start position of nospace_bits
     pub(crate) cfg: DeserializeCfg,
+    // the string being parsed is a byte string (`deserialize_bytes`), not text
+    pub(crate) bytes_mode: bool,
 }
 
 /// Records the parse status
@@ -284,6 +286,7 @@ where
             nospace_bits: 0,
             nospace_start: -128,
             cfg: DeserializeCfg::default(),
+            bytes_mode: false,
         }
     }
 
@@ -847,6 +850,19 @@ where
         }
     }
 
+    /// An unpaired surrogate escape: an error in text (U+FFFD in lossy mode); in a byte string it
+    /// stands for itself and is written as its three bytes, as serde_json does.
+    #[inline(always)]
+    fn lone_surrogate(&mut self, point: u32) -> Result<u32> {
+        if self.bytes_mode {
+            Ok(point)
+        } else if self.cfg.utf8_lossy {
+            Ok(0xFFFD)
+        } else {
+            perr!(self, InvalidSurrogateUnicodeCodePoint)
+        }
+    }
+
     pub(crate) fn parse_escaped_utf8(&mut self) -> Result<u32> {
         let point1 = if let Some(asc) = self.read.next_n(4) {
             unsafe { hex_to_u32_nocheck(&*(asc.as_ptr() as *const _ as *const [u8; 4])) }
@@ -862,41 +878,23 @@ where
             // the remaining string
             let point2 = if let Some(asc) = self.read.peek_n(6) {
                 if asc[0] != b'\\' || asc[1] != b'u' {
-                    if self.cfg.utf8_lossy {
-                        return Ok(0xFFFD);
-                    } else {
-                        // invalid surrogate
-                        return perr!(self, InvalidSurrogateUnicodeCodePoint);
-                    }
+                    return self.lone_surrogate(point1);
                 }
                 unsafe { hex_to_u32_nocheck(&*(asc.as_ptr().add(2) as *const _ as *const [u8; 4])) }
-            } else if self.cfg.utf8_lossy {
-                return Ok(0xFFFD);
             } else {
-                // invalid surrogate
-                return perr!(self, InvalidSurrogateUnicodeCodePoint);
+                return self.lone_surrogate(point1);
             };
 
             /* calcute the real code point */
             let low_bit = point2.wrapping_sub(0xdc00);
             if (low_bit >> 10) != 0 {
-                if self.cfg.utf8_lossy {
-                    return Ok(0xFFFD);
-                } else {
-                    // invalid surrogate
-                    return perr!(self, InvalidSurrogateUnicodeCodePoint);
-                }
+                return self.lone_surrogate(point1);
             }
 
             self.read.eat(6);
             Ok((((point1 - 0xd800) << 10) | low_bit).wrapping_add(0x10000))
         } else if (0xDC00..0xE000).contains(&point1) {
-            if self.cfg.utf8_lossy {
-                return Ok(0xFFFD);
-            } else {
-                // invalid surrogate
-                return perr!(self, InvalidSurrogateUnicodeCodePoint);
-            }
+            self.lone_surrogate(point1)
         } else {
             Ok(point1)
         }
